@@ -220,3 +220,18 @@ def distribution(cases, results):
         k = c['pol'] + (f":gs{c['gs']}/{len(c['stims'])}" if c['pol'] == 'grouped' else '')
         d[k] = d.get(k, 0) + 1
     return d
+
+
+# ====================================================================================================================
+# Translator tie (appended; nothing above is changed): the same regenerated file as harness/C02.py - coq/gen/QueueStepGen.v,
+# one Gallina definition per method of the generation path of psiaudio/queue.py (translate/pyqueue2coq.py) - is rebuilt
+# here, so that the theorems C03_source_* of coq/Props/C03.v (coq/Queue/ProofsTieC03.v: a run of the GENERATED pop_buffer
+# is the model's run, hence C03_policy_order / C03_after_empty hold of it) are re-checked against what the source says now.
+import C02 as _C02
+
+TRUSTED = list(TRUSTED) + [t for t in _C02.TRUSTED if t.startswith(('translate/pyqueue2coq.py', 'coq/Queue/TieLib.v'))]
+
+
+def translate(repo):
+    """regenerate coq/gen/QueueStepGen.v from the source under test (see harness/C02.py translate)"""
+    return _C02.translate(repo)
